@@ -253,8 +253,47 @@ class MetaParserModel:
                                 if not info.adaptors and not info.rev:
                                     self.tail_loop_ok = True
 
+    def closure_result_exits(self, cevs):
+        """the closure's value written in tail position (`Ok(true)` / `Ok(false)` at the end of a branch) as synthetic `return` exits,
+        so that `.. ; Ok(true)` in tail position and `..; return Ok(true);` are the same thing"""
+        from .walk import Event
+        by_node = {}
+        for e in cevs + [self.closure]:
+            if e.kind in ('tail', 'armval', 'closureval'):
+                by_node[id(e.node)] = e
+        out = []
+
+        def tails(x, hint):
+            if x is None:
+                return
+            k = x['k']
+            if k == 'Block':
+                st = x['stmts']
+                if st and st[-1]['k'] == 'Expr' and not st[-1]['semi']:
+                    tails(st[-1]['expr'], by_node.get(id(st[-1]['expr'])) or hint)
+                return
+            if k == 'If':
+                tails(x['then'], hint)
+                if x.get('else') is not None:
+                    tails(x['else'], hint)
+                return
+            if k == 'Match':
+                for a in x['arms']:
+                    tails(a['body'], by_node.get(id(a['body'])) or hint)
+                return
+            if k in ('Return', 'Break', 'Continue'):
+                return
+            ev = by_node.get(id(x)) or hint
+            if ev is not None and ev.kind != 'closure':
+                out.append(Event('exit', x, ev.ctx, ev.scope, ev.fn, how='return', value=x, synthetic=True))
+        body = self.closure.node['body']
+        cv = [e for e in cevs if e.kind == 'closureval']
+        tails(body, cv[0] if cv else None)
+        return out
+
     def analyse_closure(self, cevs, cid):
         fw, tm = self.fw, self.tm
+        cevs = sorted(cevs + self.closure_result_exits(cevs), key=lambda e: e.seq)
         # parameter selection: match on ident string, or `if ident == "name"`
         sel = None
         for e in cevs:
@@ -296,13 +335,11 @@ class MetaParserModel:
             evs = [x for x in cevs if _under(x, g.entry_id, idx=g.idx, pol=g.pol)]
             self.fill_param(g, evs)
             self.params.append(g)
-        # closure result when no arm matched: Ok(false)
-        tail = [x for x in cevs if x.kind == 'closureval' or (x.kind == 'tail' and any(c.get('id') == cid for c in x.ctx[-1:]))]
-        body = self.closure.node['body']
-        if body['k'] == 'Block' and body['stmts']:
-            last = body['stmts'][-1]
-            if last['k'] == 'Expr' and not last['semi'] and es(last['expr']).replace(' ', '') == 'Ok(false)':
-                self.default_false = True
+        # closure result when no arm matched: Ok(false) on every way out that is not inside a parameter arm
+        outside = [x for x in cevs if x.kind == 'exit' and x.how == 'return' and getattr(x, 'synthetic', False)
+                   and not any(_under(x, g.entry_id, idx=g.idx, pol=g.pol) for g in groups)]
+        if outside and all(ret_value_kind(x) == 'ok_false' for x in outside):
+            self.default_false = True
 
     def fill_param(self, g, evs):
         seq = []
